@@ -20,16 +20,23 @@
      boxfull  a box whose SECOND sub-transaction asks for more gas than a block holds: the miner drops the box after
               the box's own gas was bought and the first sub-transaction ran (neither packaged nor reported invalid)
      boxbad   a box whose SECOND sub-transaction is unpayable: the box is invalid after the first sub-transaction ran
+              (the first sub-transaction of boxfull and boxbad pays an account y that nothing else pays)
+     cfwd     founder creates a contract whose init code CALLs y with 1 wei: the gas of that CALL depends on whether y is
+              still an empty account, so anything a dropped box left behind about y shows in the block's gasUsed
+     modsig   r1 hands its account to another signer (ModifySigners): valid iff r1 is funded and still its own signer;
+              afterwards spend / votep / overspend, signed by r1, are no longer authorised
+   Before every block the miner under test (node A only) tries ALL transactions it has not been offered yet on a throwaway
+   block, so verdicts cached and state touched by an abandoned attempt precede every real execution.
    End of block: the vote-by-balance pass visits the changed accounts in hash-map order; Fold explores every order. *)
 EXTENDS Naturals, Sequences, FiniteSets, TLC
 CONSTANTS MaxCands, MaxBlocks
 Kind == {"fund", "spend", "poor", "badsig", "overspend", "votebad", "vote", "votep", "create", "call", "revert",
-         "boxok", "boxfull", "boxbad"}
+         "boxok", "boxfull", "boxbad", "cfwd", "modsig"}
 VARIABLES state,     \* set of facts
           used,      \* kinds already offered (a signed transaction is offered to the chain once)
           blocks     \* number of blocks mined
 vars == <<state, used, blocks>>
-Pre(k, s) == CASE k \in {"spend", "votep"} -> "funded" \in s
+Pre(k, s) == CASE k \in {"spend", "votep", "modsig"} -> "funded" \in s /\ "resigned" \notin s
                [] k \in {"poor", "badsig", "overspend", "votebad", "boxfull", "boxbad"} -> FALSE
                [] OTHER -> TRUE
 Eff(k, s) == CASE k = "fund" -> s \cup {"funded"}
@@ -40,6 +47,8 @@ Eff(k, s) == CASE k = "fund" -> s \cup {"funded"}
                [] k = "call" -> s \cup (IF "code" \in s THEN {"called"} ELSE {"sent"})
                [] k = "revert" -> s \cup {"failedtx"}
                [] k = "boxok" -> s \cup {"boxed"}
+               [] k = "cfwd" -> s \cup {"ypaid"}
+               [] k = "modsig" -> s \cup {"resigned"}
                [] OTHER -> s
 RECURSIVE Miner(_, _, _)
 \* <<included, state>> after walking the candidates
